@@ -298,8 +298,134 @@ pub fn machines(opts: &Opts) -> Vec<crate::machine::MCfg> {
     out
 }
 
+/// Model::forward / backward are operations and passes like any other: a tracked input receives its
+/// gradient (the one the same layers give when applied by hand), an untracked input none; the output
+/// is tracked iff the input or a parameter is.
+fn explore_model_inputs(opts: &Opts) -> Local {
+    use crate::nn::{build_layers, Act, ActStore, CostK, LayerCfg};
+    let var = opts.seed % 3;
+    let stacks: Vec<Vec<LayerCfg>> = vec![
+        vec![LayerCfg::Dense { inp: 2, out: 2, act: Act::None }],
+        vec![LayerCfg::Dense { inp: 2, out: 3, act: Act::Sigmoid }, LayerCfg::Dense { inp: 3, out: 2, act: Act::None }],
+        vec![LayerCfg::Dense { inp: 2, out: 2, act: Act::Relu }, LayerCfg::Dense { inp: 2, out: 2, act: Act::Softmax }],
+    ];
+    let mut cases: Vec<(usize, bool, bool, Vec<usize>)> = Vec::new();
+    for si in 0..stacks.len() {
+        for x_tracked in [false, true] {
+            for frozen in [false, true] {
+                for input in [vec![2usize], vec![1, 2], vec![3, 2]] {
+                    cases.push((si, x_tracked, frozen, input));
+                }
+            }
+        }
+    }
+    par(opts, cases.len(), |i, l| {
+        let (si, x_tracked, frozen, input) = &cases[i];
+        let cfgs = &stacks[*si];
+        let case = || format!("model {} input {:?} tracked={} parameters {}", si, input, x_tracked, if *frozen { "frozen" } else { "tracked" });
+        if !l.want(&case) {
+            return;
+        }
+        l.states += 1;
+        l.transitions += 2;
+        l.validated += 1;
+        let r = run_catch(|| {
+            let mut msgs: Vec<String> = Vec::new();
+            let n: usize = input.iter().product();
+            let xv: Vec<Float> = (0..n).map(|k| 0.5 + 0.25 * ((k * 3 + var as usize) % 5) as Float - if k % 2 == 1 { 1.0 } else { 0.0 }).collect();
+            let out_n = match cfgs.last().unwrap() {
+                LayerCfg::Dense { out, .. } => *out,
+                _ => 1,
+            };
+            let rows = if input.len() == 1 { 1 } else { input[0] };
+            let tv: Vec<Float> = (0..rows * out_n).map(|k| 0.25 + 0.125 * (k % 4) as Float).collect();
+            let run = |through_model: bool| -> (bool, Option<Vec<Float>>, Vec<Option<Vec<Float>>>) {
+                let store = ActStore::new(cfgs);
+                let mut layers = build_layers(cfgs, &store, 5 + var);
+                if *frozen {
+                    for ly in layers.iter_mut() {
+                        for p in ly.parameters() {
+                            p.stop_tracking();
+                        }
+                    }
+                }
+                let x = arr(input, &xv.iter().map(|v| *v as f64).collect::<Vec<f64>>());
+                let x = if *x_tracked { x.tracked() } else { x };
+                let t = Array::from((vec![rows, out_n], tv.clone()));
+                let cost = CostK::Mse.make();
+                let out_flag;
+                if through_model {
+                    let gd = corgi::optimizer::gd::GradientDescent::new(0.5);
+                    let refs: Vec<&mut dyn corgi::layer::Layer> = layers.iter_mut().map(|b| &mut **b as &mut dyn corgi::layer::Layer).collect();
+                    let mut model = corgi::model::Model::new(refs, &gd, &cost);
+                    let out = model.forward(x.clone());
+                    out_flag = is_tracked(&out);
+                    if out_flag {
+                        let _ = model.backward(t);
+                    }
+                } else {
+                    let mut h = x.clone();
+                    for ly in layers.iter() {
+                        h = ly.forward(h);
+                    }
+                    out_flag = is_tracked(&h);
+                    if out_flag {
+                        let e = cost(&h, &t);
+                        e.backward(None);
+                    }
+                }
+                let gx = x.gradient().as_ref().map(|g| g.values().to_vec());
+                let gp: Vec<Option<Vec<Float>>> = layers.iter_mut().flat_map(|ly| ly.parameters().into_iter().map(|p| p.gradient().as_ref().map(|g| g.values().to_vec())).collect::<Vec<_>>()).collect();
+                (out_flag, gx, gp)
+            };
+            let (mf, mgx, mgp) = run(true);
+            let (hf, hgx, hgp) = run(false);
+            let expect_flag = *x_tracked || !*frozen;
+            if mf != expect_flag {
+                msgs.push(format!("the model's output is tracked = {}, but input tracked = {} and parameters tracked = {}", mf, x_tracked, !*frozen));
+            }
+            if hf != expect_flag {
+                msgs.push(format!("the layers' output is tracked = {}, but input tracked = {} and parameters tracked = {}", hf, x_tracked, !*frozen));
+            }
+            if expect_flag {
+                if mgx.is_some() != *x_tracked {
+                    msgs.push(format!("after Model::backward the input (tracked = {}) holds a gradient: {}", x_tracked, mgx.is_some()));
+                }
+                let same = |a: &Option<Vec<Float>>, b: &Option<Vec<Float>>| match (a, b) {
+                    (None, None) => true,
+                    (Some(a), Some(b)) => a.len() == b.len() && a.iter().zip(b).all(|(p, q)| p.to_bits() == q.to_bits()),
+                    _ => false,
+                };
+                if !same(&mgx, &hgx) {
+                    msgs.push(format!("the input's gradient through the model is {:?}, through the same layers applied by hand {:?}", mgx, hgx));
+                }
+                for (k, (a, b)) in mgp.iter().zip(&hgp).enumerate() {
+                    if !same(a, b) {
+                        msgs.push(format!("parameter {}'s gradient through the model is {:?}, by hand {:?}", k, a, b));
+                    }
+                    if a.is_some() == *frozen {
+                        msgs.push(format!("parameter {} (frozen = {}) holds a gradient: {}", k, frozen, a.is_some()));
+                    }
+                }
+            }
+            msgs
+        });
+        match r {
+            Err(m) => l.violation("model-input", case(), format!("panicked: {}", m)),
+            Ok(msgs) => {
+                l.outcome(digest_str(&format!("{}{}", case(), msgs.len())));
+                if !msgs.is_empty() {
+                    l.violation("model-input", case(), msgs.join("; "));
+                }
+            }
+        }
+        l.sample(&case);
+    })
+}
+
 pub fn explore(opts: &Opts) -> Explored {
     let mut local = explore_iff(opts);
+    local.merge(explore_model_inputs(opts));
     let _ = (Program { leaves: vec![], nodes: vec![], retrack: vec![], frozen: Vec::new(), dropped: Vec::new() }, RErr::Refuse);
     let (ml, stats) = crate::checks::c10::run_all(opts, machines(opts));
     local.merge(ml);
